@@ -484,7 +484,7 @@ def check_returns(r, item):
     from msdm.core.mdp.policy import Policy
     for L in range(1, 5):
         for rs in product([-1, 0, 2], repeat=L):
-            for g in (0.5, 0.9, 1.0):
+            for g in (0.0, 0.5, 0.9, 1.0):
                 got = Policy.calc_returns(list(rs), g)
                 want = [0.0] * L
                 acc = 0.0
@@ -497,6 +497,22 @@ def check_returns(r, item):
                     r.violation('calc_returns', {'rewards': rs, 'gamma': g, 'got': [float(x) for x in got], 'want': want}, item)
                 if len(set(rs)) > 1:
                     r.nontriv(('ret', rs, g))
+    # long reward sequences (a return must not depend on the sequence being short)
+    for L in (300, 1100, 1500):
+        for pattern in ((1,), (-1, 0, 2), (0, 0, 0, 4)):
+            rs = [pattern[i % len(pattern)] for i in range(L)]
+            for g in (0.5, 0.9, 1.0):
+                got = Policy.calc_returns(list(rs), g)
+                want = [0.0] * L
+                acc = 0.0
+                for k in range(L - 1, -1, -1):
+                    acc = rs[k] + g * acc
+                    want[k] = acc
+                r.count('states')
+                r.count('transitions')
+                if len(got) != L or any(not (abs(float(x) - y) <= 1e-9 * max(1.0, abs(y))) for x, y in zip(got, want)):
+                    bad_at = next((k for k, (x, y) in enumerate(zip(got, want)) if not (abs(float(x) - y) <= 1e-9 * max(1.0, abs(y)))), None)
+                    r.violation('calc_returns_long_sequence', {'length': L, 'pattern': pattern, 'gamma': g, 'first_bad_index': bad_at}, item)
 
 
 def check(item, tier):
